@@ -685,8 +685,10 @@ class Model:
         if op[0] == "stop":
             self.emit(["W", str(k), "1"])
             return False
-        if op[0] == "next":          # yyin = source op[1]; return 0
-            b = self.cur()
+        if op[0] in ("next", "soft"):   # yyin = source op[1]; return 0 ("soft": the same
+            b = self.cur()              # stream goes on with those bytes)
+            if op[0] == "soft":
+                self.f("wrap_soft")
             self.emit(["W", str(k), "0"])
             b.data = bytearray(self.sources[op[1]])
             b.pos = 0
